@@ -44,7 +44,7 @@ def _set_threshold(v):
 VARIANTS = [(False, None), (True, None), (False, 0), (True, 0), (False, 8), (True, 8)]
 
 
-def _run_dw(c, history, reuse, thr):
+def _run_dw(c, history, reuse, thr, interp_each_step=True):
     from sparseSpACE.GridOperation import DensityEstimation
     from sparseSpACE.Grid import GlobalTrapezoidalGrid
     d = 2
@@ -58,7 +58,10 @@ def _run_dw(c, history, reuse, thr):
                                reuse_old_values=reuse, numeric_calculation=False, print_output=False, pre_scaled_data=True,
                                print_level=1000, log_level=1000)
         cfg = {"d": d, "lmin": 1, "lmax": c["lmax"], "version": 6, "rebalancing": False, "boundary": False}
-        r = dw.build(cfg, history, None, None, grid=grid, operation=op)
+        # the density is also interpolated after EVERY evaluation (as a user monitoring the refinement would): caches filled by an
+        # earlier interpolation must not leak into a later one
+        obs = (lambda run: run.sa(LATTICE)) if interp_each_step else None
+        r = dw.build(cfg, history, None, None, grid=grid, operation=op, observer=obs)
         sa = r.sa
         sur = {tuple(int(x) for x in comp.levelvector): np.array(op.surpluses[tuple(comp.levelvector)], dtype=float).copy() for comp in sa.scheme}
         scheme = tuple(sorted((tuple(int(x) for x in comp.levelvector), float(comp.coefficient)) for comp in sa.scheme))
@@ -93,17 +96,17 @@ def _compare(base, other, what, key, fails):
 def _dw_case(case):
     c, history = case["config"], case["history"]
     fails = []
-    base = _run_dw(c, history, False, None)
-    for reuse, thr in VARIANTS[1:]:
+    base = _run_dw(c, history, False, None, interp_each_step=False)
+    for reuse, thr in VARIANTS:
         # rhs_reuse_branch: the right-hand side of a refined grid is assembled from the previous step's vector (only reachable
         # with reuse on, a previous step, and a grid at or above the size threshold)
         key = {"grid": "dimension-wise", "reuse": reuse, "threshold": "natural" if thr is None else "lowered",
                "rhs_reuse_branch": bool(reuse and thr is not None and len(history) > 0)}
         other = _run_dw(c, history, reuse, thr)
-        _compare(base, other, "reuse=%s threshold=%s vs reuse=False threshold=200" % (reuse, thr), key, fails)
+        _compare(base, other, "reuse=%s threshold=%s (density interpolated after every step) vs reuse=False threshold=200 (interpolated once)" % (reuse, thr), key, fails)
     sa = base[0]
     out = {"failures": fails, "canon": dw.canon(sa), "nontrivial": len(history) > 0,
-           "outcome": tuple(round(float(x), 8) for x in base[3].ravel()[:3]), "evals": len(VARIANTS)}
+           "outcome": tuple(round(float(x), 8) for x in base[3].ravel()[:3]), "evals": len(VARIANTS) + 1}
     if case.get("want_events", False):
         out["events"] = dw.events_for(sa, c)
     return out
